@@ -9,7 +9,9 @@ package harness
 // signatures are computed last, bottom-up, over the element they sit in.
 
 import (
+	"crypto/sha1"
 	"crypto/sha256"
+	"crypto/sha512"
 	"crypto/x509"
 	"encoding/base64"
 	"encoding/hex"
@@ -17,6 +19,8 @@ import (
 	"encoding/xml"
 	"fmt"
 	"math/rand"
+	"os"
+	"path/filepath"
 	"sort"
 	"strings"
 	"sync"
@@ -76,6 +80,7 @@ type stVec struct {
 	N    int        `json:"n"`
 	T    *stNode    `json:"t"`
 	Runs []stRun    `json:"runs"`
+	fam  *stFamily
 }
 
 func (v *stVec) treeHash() string {
@@ -463,17 +468,142 @@ func (s *stBases) get(spec stBaseSpec, gkey string) *stBase {
 }
 
 // ---------------------------------------------------------------------------
-// trust configurations
+// trust configurations (spec/SigTree.tla, section "trust configurations"): the table is emitted by the
+// specification (TCFG lines); nothing about a configuration is known here but how to write it down
 
-func stSigningRoots(trust string) []string {
-	if trust == "T2" {
-		return []string{"idp1", "idp2"}
-	}
-	return []string{"idp1"}
+type stKD struct {
+	Use   string   `json:"use"`   // "signing" | "" (attribute omitted) | "encryption"
+	Em    bool     `json:"em"`    // has EncryptionMethod children
+	Certs []string `json:"certs"` // model certificate names, "bad" = a string that is no certificate
+	Role  int      `json:"role"`  // which IDPSSODescriptor
 }
 
-func stFingerprint(c *x509.Certificate) string {
-	h := sha256.Sum256(c.Raw)
+type stTrustCfg struct {
+	Name    string   `json:"name"`
+	Md      []stKD   `json:"md"`
+	Pin     string   `json:"pin"` // "-" | certificate | "bad"
+	Fp      string   `json:"fp"`  // "-" | the certificate whose fingerprint is configured
+	Alg     string   `json:"alg"` // "-" | sha1 | sha256 | sha512
+	Fmt     string   `json:"fmt"` // canon | lower | otheralg
+	Trusted []string `json:"trusted"`
+	Clean   bool     `json:"clean"`
+}
+
+// stCfgVariant: how the configuration is written down (no effect on which keys it names)
+type stCfgVariant struct {
+	Wrap bool `json:"wrap,omitempty"` // certificates as line-wrapped base64 with surrounding white space
+	XML  bool `json:"xml,omitempty"`  // the metadata goes through XML (marshal + unmarshal) before it is used
+	Bad  int  `json:"bad,omitempty"`  // which non-certificate string stands for "bad"
+}
+
+func (v stCfgVariant) any() bool { return v.Wrap || v.XML }
+
+func stPickCfgVariant(rng *rand.Rand) stCfgVariant {
+	return stCfgVariant{Wrap: rng.Intn(3) == 0, XML: rng.Intn(3) == 0, Bad: rng.Intn(len(stBadCerts))}
+}
+
+// strings that are not certificates: empty, not base64, base64 of bytes that are no DER certificate,
+// a certificate cut in the middle
+var stBadCerts = []func() string{
+	func() string { return "" },
+	func() string { return "-----BEGIN CERTIFICATE-----*not*base64*" },
+	func() string { return "AAAAAAAAAAAAAAAAAAAAAAAAAAAAAAAAAAAAAAAAAAAA" },
+	func() string { return key("idp1").CertB64()[:400] },
+}
+
+func stIsCert(name string) bool {
+	switch name {
+	case "Kidp1", "Kidp2", "Kenc", "Katt":
+		return true
+	}
+	return false
+}
+
+// stCertText writes a model certificate name down
+func stCertText(name string, cv stCfgVariant) string {
+	if !stIsCert(name) {
+		if name != "bad" {
+			panic("unknown certificate name " + name)
+		}
+		return stBadCerts[cv.Bad%len(stBadCerts)]()
+	}
+	b := key(stKeyName(name)).CertB64()
+	if !cv.Wrap {
+		return b
+	}
+	var w strings.Builder
+	w.WriteString("\n    ")
+	for i := 0; i < len(b); i += 64 {
+		e := i + 64
+		if e > len(b) {
+			e = len(b)
+		}
+		w.WriteString(b[i:e])
+		w.WriteString("\r\n\t ")
+	}
+	return w.String()
+}
+
+// stTrustedByStatement: the certificates the SP is configured to trust, from the statement of C01 (pinned
+// certificate => only it; fingerprint => only a certificate with that fingerprint; otherwise the signing-use
+// certificates of the metadata).  Computed here independently of the specification, which emits its own.
+func stTrustedByStatement(c *stTrustCfg) []string {
+	set := map[string]bool{}
+	if c.Pin != "-" || c.Fp != "-" {
+		for _, x := range []string{c.Pin, c.Fp} {
+			if stIsCert(x) {
+				set[x] = true
+			}
+		}
+	} else {
+		for _, kd := range c.Md {
+			if kd.Use == "signing" || kd.Use == "" {
+				for _, x := range kd.Certs {
+					if stIsCert(x) {
+						set[x] = true
+					}
+				}
+			}
+		}
+	}
+	out := []string{}
+	for k := range set {
+		out = append(out, k)
+	}
+	sort.Strings(out)
+	return out
+}
+
+// stSigningRoots: harness key names of TrustedKeys(cfg)
+func stSigningRoots(c *stTrustCfg) []string {
+	out := []string{}
+	for _, k := range stTrustedByStatement(c) {
+		out = append(out, stKeyName(k))
+	}
+	return out
+}
+
+var stAlgURI = map[string]string{
+	"sha1":   "http://www.w3.org/2000/09/xmldsig#sha1",
+	"sha256": "http://www.w3.org/2001/04/xmlenc#sha256",
+	"sha512": "http://www.w3.org/2001/04/xmlenc#sha512",
+}
+
+func stFingerprintAlg(c *x509.Certificate, alg string) string {
+	var h []byte
+	switch alg {
+	case "sha1":
+		x := sha1.Sum(c.Raw)
+		h = x[:]
+	case "sha256":
+		x := sha256.Sum256(c.Raw)
+		h = x[:]
+	case "sha512":
+		x := sha512.Sum512(c.Raw)
+		h = x[:]
+	default:
+		panic("unknown fingerprint algorithm " + alg)
+	}
 	parts := make([]string, len(h))
 	for i, x := range h {
 		parts[i] = fmt.Sprintf("%02X", x)
@@ -481,23 +611,113 @@ func stFingerprint(c *x509.Certificate) string {
 	return strings.Join(parts, ":")
 }
 
-func stNewSP(trust string) *saml.ServiceProvider {
-	switch trust {
-	case "T1":
-		return newSP(idpMetadata([]keyUse{{"signing", key("idp1").CertB64()}}))
-	case "T2":
-		return newSP(idpMetadata([]keyUse{{"signing", key("idp1").CertB64()}, {"signing", key("idp2").CertB64()}, {"encryption", key("idpenc").CertB64()}}))
-	case "PIN":
-		s := newSP(idpMetadata(nil))
-		s.IDPCertificate = sp(key("idp1").CertB64())
-		return s
-	case "FP":
-		s := newSP(idpMetadata(nil))
-		s.IDPCertificateFingerprint = sp(stFingerprint(key("idp1").Cert))
-		s.IDPCertificateFingerprintAlgorithm = sp("http://www.w3.org/2001/04/xmlenc#sha256")
-		return s
+// stMetadata builds the IdP metadata that lists the given key descriptors
+func stMetadata(kds []stKD, cv stCfgVariant) *saml.EntityDescriptor {
+	md := idpMetadata(nil)
+	roles := 1
+	for _, kd := range kds {
+		if kd.Role > roles {
+			roles = kd.Role
+		}
 	}
-	panic("unknown trust configuration " + trust)
+	for len(md.IDPSSODescriptors) < roles {
+		md.IDPSSODescriptors = append(md.IDPSSODescriptors, idpMetadata(nil).IDPSSODescriptors[0])
+	}
+	for _, kd := range kds {
+		d := saml.KeyDescriptor{Use: kd.Use}
+		for _, c := range kd.Certs {
+			d.KeyInfo.X509Data.X509Certificates = append(d.KeyInfo.X509Data.X509Certificates, saml.X509Certificate{Data: stCertText(c, cv)})
+		}
+		if kd.Em {
+			d.EncryptionMethods = []saml.EncryptionMethod{{Algorithm: "http://www.w3.org/2001/04/xmlenc#aes128-cbc"},
+				{Algorithm: "http://www.w3.org/2001/04/xmlenc#rsa-oaep-mgf1p"}}
+		}
+		r := kd.Role
+		if r < 1 {
+			r = 1
+		}
+		rd := &md.IDPSSODescriptors[r-1]
+		rd.KeyDescriptors = append(rd.KeyDescriptors, d)
+	}
+	if cv.XML {
+		b, err := xml.Marshal(md)
+		if err != nil {
+			panic(err)
+		}
+		var back saml.EntityDescriptor
+		if err := xml.Unmarshal(b, &back); err != nil {
+			panic(err)
+		}
+		return &back
+	}
+	return md
+}
+
+// stNewSP configures a ServiceProvider as the trust configuration says
+func stNewSP(c *stTrustCfg, cv stCfgVariant) *saml.ServiceProvider {
+	s := newSP(stMetadata(c.Md, cv))
+	if c.Pin != "-" {
+		s.IDPCertificate = sp(stCertText(c.Pin, cv))
+	}
+	if c.Fp != "-" {
+		alg := c.Alg
+		if alg == "-" {
+			alg = "sha256"
+		}
+		if c.Fmt == "otheralg" {
+			alg = map[string]string{"sha256": "sha512", "sha512": "sha256", "sha1": "sha256"}[alg]
+		}
+		f := stFingerprintAlg(key(stKeyName(c.Fp)).Cert, alg)
+		if c.Fmt == "lower" {
+			f = strings.ToLower(f)
+		}
+		s.IDPCertificateFingerprint = sp(f)
+	}
+	if c.Alg != "-" {
+		s.IDPCertificateFingerprintAlgorithm = sp(stAlgURI[c.Alg])
+	}
+	return s
+}
+
+// stLoadTrustCfgs reads the tables the TLC phases emitted (TCFG lines) and checks each against the
+// statement-derived set computed here
+func stLoadTrustCfgs(rep *Report) map[string]*stTrustCfg {
+	out := map[string]*stTrustCfg{}
+	files, _ := filepath.Glob(filepath.Join(workDir(), "trustcfgs*.ndjson"))
+	sort.Strings(files)
+	for _, f := range files {
+		b, err := os.ReadFile(f)
+		if err != nil {
+			rep.Break("cannot read %s: %v", f, err)
+			return nil
+		}
+		for _, l := range strings.Split(string(b), "\n") {
+			if strings.TrimSpace(l) == "" {
+				continue
+			}
+			c := &stTrustCfg{}
+			if err := json.Unmarshal([]byte(l), c); err != nil {
+				rep.Break("bad trust configuration in %s: %v", f, err)
+				return nil
+			}
+			sort.Strings(c.Trusted)
+			if mine := stTrustedByStatement(c); strings.Join(mine, ",") != strings.Join(c.Trusted, ",") {
+				rep.Break("trust configuration %s: the specification says TrustedKeys = %v, the statement read here gives %v", c.Name, c.Trusted, mine)
+				return nil
+			}
+			if old, ok := out[c.Name]; ok {
+				a, _ := json.Marshal(old)
+				b, _ := json.Marshal(c)
+				if string(a) != string(b) {
+					rep.Break("trust configuration %s defined twice differently", c.Name)
+					return nil
+				}
+				continue
+			}
+			out[c.Name] = c
+		}
+	}
+	return out
 }
 
 // ---------------------------------------------------------------------------
@@ -524,6 +744,7 @@ type stRender struct {
 	rng      *rand.Rand
 	attSigs  int
 	encMade  int
+	bad      int // which non-certificate string a "bad" KeyInfo holds
 	problems []string
 }
 
@@ -569,7 +790,7 @@ func stInjectComment(el *etree.Element) {
 }
 
 // stApplyKI rewrites the KeyInfo of a Signature element (outside SignedInfo, so never covered).
-func stApplyKI(sig *etree.Element, ki string, signer *KeyPair) {
+func stApplyKI(sig *etree.Element, ki string, signer *KeyPair, bad int) {
 	kiEl := stChildByTag(sig, "KeyInfo")
 	switch ki {
 	case "cert":
@@ -591,6 +812,11 @@ func stApplyKI(sig *etree.Element, ki string, signer *KeyPair) {
 			other = "idp1" // trusted certificate on an attacker signature
 		}
 		kiEl.FindElement("./X509Data/X509Certificate").SetText(key(other).CertB64())
+	case "Kidp1", "Kidp2", "Katt", "Kenc":
+		kiEl.FindElement("./X509Data/X509Certificate").SetText(key(stKeyName(ki)).CertB64()) // that certificate, whoever signed
+	case "bad":
+		x := kiEl.FindElement("./X509Data/X509Certificate")
+		x.SetText(stBadCerts[bad%len(stBadCerts)]()) // an X509Certificate element that holds no certificate
 	default:
 		panic("unknown KeyInfo variant " + ki)
 	}
@@ -661,7 +887,7 @@ func (r *stRender) render(n *stNode) *etree.Element {
 				panic("vector uses a genuine signature the base message does not have: " + n.Cov)
 			}
 			el = g.Copy()
-			stApplyKI(el, n.Ki, key(b.gkey))
+			stApplyKI(el, n.Ki, key(b.gkey), r.bad)
 		}
 	case "Obj":
 		el = etree.NewElement("ds:Object")
@@ -752,7 +978,7 @@ func (r *stRender) render(n *stNode) *etree.Element {
 		signed := signEnveloped(cp, kp, SigOpts{})
 		sk := signed.ChildElements()
 		sig := sk[len(sk)-1].Copy()
-		stApplyKI(sig, p.node.Ki, kp)
+		stApplyKI(sig, p.node.Ki, kp, r.bad)
 		// keep what the model put under this Signature (Object children) and its namespace flag
 		for _, g := range p.placeholder.ChildElements() {
 			sig.AddChild(g)
@@ -778,7 +1004,7 @@ func stSoap(el *etree.Element) *etree.Element {
 
 // stDocument renders the whole vector for one base message.
 func stDocument(v *stVec, b *stBase, vr stVariants, rng *rand.Rand) (doc []byte, r *stRender) {
-	r = &stRender{base: b, vr: vr, rng: rng}
+	r = &stRender{base: b, vr: vr, rng: rng, bad: rng.Intn(len(stBadCerts))}
 	root := r.render(v.T)
 	if v.B.Art != "none" {
 		root = stSoap(root)
